@@ -7,13 +7,13 @@ package main
 import (
 	"bytes"
 	"context"
-	"strconv"
 	"encoding/json"
 	"fmt"
 	"os"
 	"os/exec"
 	"path/filepath"
 	"sort"
+	"strconv"
 	"strings"
 	"sync"
 	"time"
@@ -118,6 +118,9 @@ func runNative(files []harnessFile, pkgRel string, names []string, replayPath st
 	cmd.Stderr = &out
 	err := cmd.Run()
 	o := out.String()
+	if os.Getenv("GOSYM_REPLAY_VERBOSE") != "" {
+		fmt.Fprintln(os.Stderr, o)
+	}
 	if strings.Contains(o, "WARNING: DATA RACE") {
 		return "fail", "data race reported by the race detector"
 	}
